@@ -583,6 +583,27 @@ def one_key(P, R, rule='C20.MPT.7'):
     R.floor(rule, 1)
 
 
+def no_dependent_loaded_from_constructor(P, R, rule='C20.MPT.8'):
+    """"Its dependencies are fully constructed before it finishes constructing": a constructor may cause other modules to
+    be loaded - but only modules it depends ON (module_depends: they finish first, then it goes on).  Loading a module
+    that depends on the caller while the caller's constructor is still on the stack (module_antidepends on a module not
+    loaded yet) lets that module, and whatever it pulls in that depends on the caller too, finish constructing before
+    the caller has."""
+    ld = P.need_fn('module_load')
+    n = 0
+    for c in P.callers(ld, may=True):
+        f = c.fn
+        if f.unit.startswith('tests/'):
+            continue
+        # does f record the loaded module as depending on the loading one?  (other->depends gets loading_module's name)
+        makes_dependent = any(t.ev['k'] == 'call' and (t.ev.get('callee') or '').endswith('_append') and t.ev['args'] and
+                              any(x.get('k') == 'mem' and x.get('field') == 'depends' for x in walk(t.ev['args'][0])) and
+                              not any(is_var(x, 'loading_module') for x in walk(t.ev['args'][0])) for t in f.calls())
+        n += 1
+        R.ob(rule, not makes_dependent, c, '%s loads a module only to depend on it, never to make it a dependent of the module whose constructor is running' % f.name, key='load-from:%s' % f.name)
+    R.floor(rule, 2, 'callers of the module loader')
+
+
 def loader_details(P, R):
     """Three facts the order of construction and post-initialisation rests on."""
     # (TAB.3) a module is opened with lazy binding and global symbols: what it calls in the modules it depends on is
@@ -721,6 +742,7 @@ def run(P, R, tier):
     reverse_list_removal(P, R)
     names_nonempty(P, R)
     loader_details(P, R)
+    no_dependent_loaded_from_constructor(P, R)
     one_key(P, R)
     loading_context(P, R)
     edge_forms(P, R)
